@@ -14,6 +14,7 @@ mod proj;
 mod rng;
 mod sections;
 mod stream;
+mod walk;
 
 use serde_json::{json, Value};
 use std::io::{BufRead, BufWriter, Write};
